@@ -255,8 +255,12 @@ func LoadPackage(dir string) (*PackageInfo, error) {
 
 	for i, vdir := range vdirs {
 		if vdir == dir {
-			// The main package has a version label
-			packageInfo.Versions[i].Package = packageInfo
+			// The main package has a version label. Refer to a copy without the version list:
+			// a PackageInfo that points back to itself cannot be walked (the config override
+			// code overflowed the stack on it).
+			self := *packageInfo
+			self.Versions = nil
+			packageInfo.Versions[i].Package = &self
 			continue
 		}
 
